@@ -73,7 +73,7 @@ def run_task(task):
     # CPython cross-check of this path (one model of the path condition)
     if res['outcome'] == 'ok' and opts.get('xcheck') and hasattr(h, 'crosscheck'):
         try:
-            m = st.model()
+            m = st.model(budget_s=4)
             conc = {k: concretize(m, v, st) for k, v in st.inputs.items()}
             exp = {k: concretize(m, v, st) for k, v in getattr(st, 'observed', {}).items()}
             res['xcheck'] = h.crosscheck(case, conc, exp)
@@ -187,14 +187,16 @@ def summarize(prop, h, tier, seed, cases, results, lemma_obs, wall):
                'replay_cmd': f'./check --replay replays/{os.path.basename(fn)}'}
         json.dump(doc, open(fn, 'w'), indent=1, default=str)
         if kf is not None:
-            known_lines.append(f'KNOWN-FINDING: property={prop} {kf.get("what", name)}')
+            line = f'KNOWN-FINDING: property={prop} {kf.get("what", name)}'
+            if line not in known_lines: known_lines.append(line)
         else:
             violations.append((name, fn, bool(confirmed), witnesses))
     # ---- recorded findings that are excluded by a stated precondition: replayed natively on every run
     for k in known:
         if k.get('kind') == 'known' and k.get('native_witness') is not None and hasattr(h, 'reproduce_known'):
             try:
-                if h.reproduce_known(k): known_lines.append(f'KNOWN-FINDING: property={prop} {k.get("what")}')
+                line = f'KNOWN-FINDING: property={prop} {k.get("what")}'
+                if h.reproduce_known(k) and line not in known_lines: known_lines.append(line)
             except Exception as e: print('note: known finding could not be replayed:', repr(e)[:200])
     # ---- evidence
     level = 'proof' if not getattr(h, 'BOUNDED', None) else 'other'
